@@ -472,7 +472,9 @@ impl Iter {
                     if matches!(mode, Mode::FuncEntry | Mode::FuncExit) && plan.iter().any(|i: &Inj| i.func == raw.n_imp_funcs + f as u32 && matches!(i.mode, Mode::FuncEntry | Mode::FuncExit)) {
                         continue;
                     }
-                    plan.push(Inj { func: raw.n_imp_funcs + f as u32, at, mode, path: Path::Iter, uid, n_ops: 1, leading_drop: false, probe: lower::Probe::Marker });
+                    // 1 in 4 of the ordinary injections: made "at a distance" (*_at(loc) + add_instr_at(loc, op)) from the iterator's initial position
+                    let path = if matches!(mode, Mode::Before | Mode::After | Mode::Alt) && rng.chance(1, 4) { Path::IterAddInstrAt } else { Path::Iter };
+                    plan.push(Inj { func: raw.n_imp_funcs + f as u32, at, mode, path, uid, n_ops: 1, leading_drop: false, probe: lower::Probe::Marker });
                     uid += 1;
                     any_inj = true;
                     // 1 in 6: an ordinary injection is withdrawn again through clear_instr_at with the saved location (the component
@@ -518,6 +520,15 @@ impl Iter {
                                 }
                             }
                             it.clear_instr_at(Location::Component { mod_idx: wirm::ir::id::ModuleID(k as u32), func_idx: FunctionID(inj.func), instr_idx: inj.at }, what);
+                            continue;
+                        }
+                        if inj.path == Path::IterAddInstrAt {
+                            use wirm::opcode::Instrumenter;
+                            let loc = Location::Component { mod_idx: wirm::ir::id::ModuleID(k as u32), func_idx: FunctionID(inj.func), instr_idx: inj.at };
+                            lower::set_mode_at(&mut it, inj.mode, loc);
+                            for o in lower::probe_ops_for(inj) {
+                                it.add_instr_at(loc, o);
+                            }
                             continue;
                         }
                         loop {
